@@ -200,6 +200,8 @@ def _corpus() -> list[str]:
         "a{# c #}b{{ x }}", "{% # c %}{{ x }}", "{# a #}{# b #}{% if x %}y{% endif %}", "{% comment %}x{% endcomment %}{{ y }}",
         "{% raw %}{{ x }}{% endraw %}{{ y }}", "{% liquid\n  # c\n  echo x\n%}{{ y }}", "a{##- c -##}{{- x -}}",
         "é{# c #}ü{{ 'ö' }}", "{%- # c -%}\n{%- assign a = 1 -%}{{ a }}",
+        "{{ \"${(1..3)}\" }}{{ (1..2) }}{{ \"a${ (x..y) | join: '-' }b\" }}{% for i in (a.b..c[0]) %}{{ i }}{% endfor %}",
+        "{{ a[b.c].d['e f'] }}{{ 'x${ p[q] }y${ 'n${z}' }' }}{% liquid\n  echo (1..x)\n  assign v = \"${ a.b }\"\n%}",
     ]
     return out + extra
 
@@ -224,22 +226,58 @@ def _spans_ok(src: str) -> bool:
             for e in exp:
                 if not (at <= e.start <= e.stop <= t.stop):
                     return False
+                if not _nested_ok(e, t.start, t.stop):
+                    return False
+                at = e.stop
+        for st in getattr(t, "statements", None) or []:
+            if not (t.start <= st.start <= st.stop <= t.stop):
+                return False
+            at = st.start
+            for e in getattr(st, "expression", None) or []:
+                if not (at <= e.start <= e.stop <= st.stop and _nested_ok(e, st.start, st.stop)):
+                    return False
                 at = e.stop
     return True
 
 
-LAYOUTS = CORPUS[-9:]
+def _nested_ok(tok, lo: int, hi: int) -> bool:
+    """Tokens nested in ranges, paths and template strings also lie inside their parent, in order."""
+    kids = []
+    if hasattr(tok, "range_start"):
+        kids = [tok.range_start, tok.range_stop]
+    elif hasattr(tok, "template"):
+        kids = list(tok.template)
+    elif hasattr(tok, "path"):
+        kids = [seg for seg in tok.path if hasattr(seg, "start")]
+    at = tok.start
+    for k in kids:
+        if not (lo <= tok.start <= k.start <= k.stop <= tok.stop <= hi and at <= k.start):
+            return False
+        sub = getattr(k, "expression", None)
+        if sub:
+            a2 = k.start
+            for e in sub:
+                if not (a2 <= e.start <= e.stop <= k.stop and _nested_ok(e, k.start, k.stop)):
+                    return False
+                a2 = e.stop
+        elif not _nested_ok(k, lo, hi):
+            return False
+        at = k.stop
+    return True
+
+
+LAYOUTS = CORPUS[-11:]
 
 
 @cond(
-    pre=["0 <= i < 9"],
+    pre=["0 <= i < 11"],
     timeout=120,
     covers="tokens after {# #}, {% # %}, block comments, raw and liquid tags start where the previous token stopped (real lexer, concrete layouts)",
-    bounds="9 comment-bearing layouts (i enumerated by the solver)",
-    grid=lambda: [(i,) for i in range(9)],
+    bounds="11 layouts: comments of every kind before every construct, ranges and paths nested in template strings, liquid tags (i enumerated by the solver)",
+    grid=lambda: [(i,) for i in range(11)],
 )
 def d_comment_layouts(i: int) -> bool:
-    return _spans_ok(LAYOUTS[concrete_int(i, 0, 8)])
+    return _spans_ok(LAYOUTS[concrete_int(i, 0, 10)])
 
 
 @cond(
@@ -250,3 +288,47 @@ def d_comment_layouts(i: int) -> bool:
 )
 def d_corpus_native(i: int) -> bool:
     return _spans_ok(CORPUS[i])
+
+
+class _Shorthand(Environment):
+    shorthand_indexes = True
+
+
+ENV_SH = _Shorthand()
+SH_SRC = ["{{ a.1 }}{{ a.0.b }}", "{{ a.1.c[0] }}|{% if a.2 == b.0 %}x{% endif %}", "{% for i in a.1 %}{{ i.0 }}{% endfor %}"]
+
+
+@cond(
+    pre=["0 <= i < 3"],
+    timeout=60,
+    covers="with shorthand_indexes enabled, paths ending in or containing a shorthand index have spans inside their markup token",
+    bounds="3 concrete sources",
+    grid=lambda: [(i,) for i in range(3)],
+)
+def d_shorthand_spans(i: int) -> bool:
+    src = SH_SRC[concrete_int(i, 0, 2)]
+    toks = ENV_SH.tokenize(src)
+    if not _tiles(toks, len(src)):
+        return False
+    for t in toks:
+        at = t.start
+        for e in getattr(t, "expression", None) or []:
+            if not (at <= e.start <= e.stop <= t.stop):
+                return False
+            at = e.stop
+    return True
+
+
+from .C02 import k_errctx as _k_errctx  # noqa: E402
+
+
+@cond(
+    pre=["len(text) <= 3", "in_alpha(text, 'a\\n\\r')", "0 <= index <= len(text)"],
+    timeout=200,
+    shard={"kind": [0, 1, 2, 3, 4]},
+    covers="line and column information refers to the construct it describes: for every source over {a, LF, CR} and every position, context() reports the line (LF, CR and CRLF each one break), the column within it and that line's text",
+    bounds="source len <= 3 over {a LF CR}; every position 0..len; 5 token kinds",
+    grid=lambda: [(t, i, k) for t in ("a\r\na", "\r\n\r\n", "a\n\ra", "aaa", "\ra") for i in range(len(t) + 1) for k in range(5)],
+)
+def k_linecol(text: str, index: int, kind: int) -> bool:
+    return _k_errctx(text, index, 1, kind, False)
